@@ -188,6 +188,18 @@ func (e *Engine) BuildVC(fn *ssa.Function) (vc *FnVC) {
 				if len(parts) > 1 {
 					desc = fmt.Sprintf("%s/%d", shorten(c.Src, 48), k+1)
 				}
+				if e.covers {
+					// cover of the antecedent: an implication whose antecedent can never hold at exit is vacuous
+					if b, ok := pe.(*EBinary); ok && b.Op == "==>" {
+						a := vc.evalBool(pfr, fin, vc.old, b.X, vars)
+						vc.covers = append(vc.covers, desc)
+						vc.emit("(push 1)")
+						vc.emit("(assert (and %s %s))", fin.reach, a)
+						vc.emit("(echo \"@cover %d\")", len(vc.covers)-1)
+						vc.emit("(check-sat)")
+						vc.emit("(pop 1)")
+					}
+				}
 				vc.oblige("ensures", desc, fin.reach, t, vc.tagsFor(fr, c), fmt.Sprintf("%s:%d", c.File, c.Line))
 			}
 		}
